@@ -1,26 +1,197 @@
-//! C15: not implemented yet.
+//! C15: builds are deterministic.
+//! Monitor: the same package is built several times, each time in a FRESH process (different
+//! hash seeds, different thread timings: default, single rayon thread, pinned to one core, under
+//! parallel load, different HOME); SHA-256 of bytecode, JSON ABI and storage-slots JSON (and the
+//! derived contract id / predicate root) must be identical.
 use crate::common::*;
+use crate::e2e;
+use crate::engine::*;
+use crate::swrun::*;
 use crate::{Plan, Prop};
+use serde_json::{json, Value};
+use std::path::Path;
+use std::process::{Command, Stdio};
 
 pub static META: PropertyMeta = PropertyMeta {
     id: "C15",
     level: "exploration",
-    rule: "not implemented",
-    assumptions: &[],
-    floor_evaluations: 1,
-    floor_nontrivial: 2,
-    required_counters: &[],
+    rule: "packages = e2e 'run' test programs (seed-rotated slice; contracts/configurable/storage users first in thorough) and SwGen programs written to disk; each built >= 3 times per profile in fresh child processes under perturbed conditions {default, RAYON_NUM_THREADS=1, taskset to one core, different HOME, concurrent with the other shards' builds}; compared: sha256 of bytecode, JSON ABI, storage slots JSON; an evaluation = one (package, profile); non-trivial = package whose bytecode is > 1 KiB and that was built in >= 3 distinct processes; distinct = hash of (package name/source, profile)",
+    assumptions: &["per-process RandomState seeds and OS scheduling provide the variation; not every schedule inside hash containers can be forced"],
+    floor_evaluations: 20,
+    floor_nontrivial: 8,
+    required_counters: &["builds_in_fresh_processes", "artifact_sets_compared", "condition.rayon1", "condition.onecore", "condition.home"],
 };
 
 pub static PROP: Prop = Prop {
     meta: &META,
-    plan: |_t| Plan { nshards: 1, budget_s: 1.0, mem_gib: 0 },
-    shard: |_ctx| {
-        let mut r = ShardResult::default();
-        r.harness_fault = Some("not implemented".into());
-        r
-    },
-    replay: crate::no_replay,
+    plan: |t| Plan { nshards: 16, budget_s: t.pick(60.0, 1200.0), mem_gib: 6 },
+    shard,
+    replay,
     extra: crate::no_extra,
-    subcommand: crate::no_subcommand,
+    subcommand,
 };
+
+/// child: `swverif c15-build <dir> <debug|release>` prints one JSON line with the artifact hashes
+fn subcommand(args: &[String]) -> Option<i32> {
+    if args.first().map(|s| s.as_str()) != Some("c15-build") {
+        return None;
+    }
+    set_mem_limit_from_env();
+    let dir = Path::new(&args[1]);
+    let profile = if args[2] == "release" { Profile::Release } else { Profile::Debug };
+    match plain_build(dir, profile) {
+        Ok(p) => {
+            let abi = match &p.program_abi {
+                sway_core::asm_generation::ProgramABI::Fuel(a) => serde_json::to_string_pretty(a).unwrap_or_default(),
+                _ => String::new(),
+            };
+            let slots = serde_json::to_string_pretty(&p.storage_slots).unwrap_or_default();
+            let id = match p.tree_type {
+                sway_core::language::parsed::TreeType::Contract => format!("{}", forc_pkg::contract_id(&p.bytecode.bytes, p.storage_slots.clone(), &fuel_tx::Salt::zeroed())),
+                _ => String::new(),
+            };
+            println!(
+                "C15RESULT {}",
+                json!({"ok": true, "bytecode": sha_hex(&p.bytecode.bytes), "bytecode_len": p.bytecode.bytes.len(), "abi": sha_hex(abi.as_bytes()), "slots": sha_hex(slots.as_bytes()), "slots_n": p.storage_slots.len(), "contract_id": id})
+            );
+            Some(0)
+        }
+        Err(e) => {
+            println!("C15RESULT {}", json!({"ok": false, "error": e.to_string()}));
+            Some(0)
+        }
+    }
+}
+
+fn build_child(dir: &Path, profile: Profile, cond: &str, home: &Path) -> Option<Value> {
+    let exe = std::env::current_exe().ok()?;
+    let mut cmd = if cond == "onecore" {
+        let mut c = Command::new("taskset");
+        c.arg("-c").arg("0").arg(&exe);
+        c
+    } else {
+        Command::new(&exe)
+    };
+    cmd.arg("c15-build").arg(dir).arg(profile.name()).stdin(Stdio::null()).stderr(Stdio::null());
+    match cond {
+        "rayon1" => {
+            cmd.env("RAYON_NUM_THREADS", "1");
+        }
+        "home" => {
+            std::fs::create_dir_all(home).ok();
+            cmd.env("HOME", home);
+        }
+        _ => {}
+    }
+    let out = cmd.output().ok()?;
+    let text = String::from_utf8_lossy(&out.stdout);
+    let line = text.lines().find(|l| l.starts_with("C15RESULT "))?;
+    serde_json::from_str(&line["C15RESULT ".len()..]).ok()
+}
+
+fn check_pkg(ctx: &ShardCtx, name: &str, dir: &Path, res: &mut ShardResult, builds: usize) {
+    let conds = ["default", "rayon1", "onecore", "home", "default", "rayon1"];
+    for profile in Profile::BOTH {
+        res.evaluations += 1;
+        let mut results: Vec<(String, Value)> = vec![];
+        for (k, cond) in conds.iter().take(builds).enumerate() {
+            let home = ctx.work().join(format!("home{k}"));
+            match build_child(dir, profile, cond, &home) {
+                Some(v) => {
+                    res.count("builds_in_fresh_processes");
+                    res.count(&format!("condition.{cond}"));
+                    results.push((cond.to_string(), v));
+                }
+                None => res.inconclusive(format!("build child for {name} ({cond}) produced no result")),
+            }
+        }
+        let ok: Vec<&(String, Value)> = results.iter().filter(|(_, v)| v["ok"] == true).collect();
+        if ok.len() != results.len() {
+            if ok.is_empty() {
+                res.count("packages_not_buildable");
+            } else {
+                // builds of one package must at least agree on success
+                res.violation(format!("build-success-differs:{name}:{}", profile.name()), format!("{name} ({}) builds in some processes and fails in others: {:?}", profile.name(), results.iter().map(|(c, v)| format!("{c}:{}", v["ok"])).collect::<Vec<_>>()), json!({"package": name, "dir": dir}));
+            }
+            continue;
+        }
+        if ok.len() < 2 {
+            continue;
+        }
+        res.count("artifact_sets_compared");
+        let first = &ok[0].1;
+        for (cond, v) in ok.iter().skip(1) {
+            for key in ["bytecode", "abi", "slots", "contract_id"] {
+                if v[key] != first[key] {
+                    res.violation(
+                        format!("nondeterministic-{key}:{name}:{}", profile.name()),
+                        format!("{name} ({}): {key} differs between a '{}' build and a '{cond}' build in fresh processes ({} vs {})", profile.name(), ok[0].0, first[key], v[key]),
+                        json!({"package": name, "dir": dir}),
+                    );
+                }
+            }
+        }
+        if first["bytecode_len"].as_u64().unwrap_or(0) > 1024 && ok.len() >= 3 {
+            res.note_nontrivial(hash64(format!("{name}{}", profile.name()).as_bytes()));
+        }
+        if first["slots_n"].as_u64().unwrap_or(0) > 0 {
+            res.count("packages_with_storage_slots");
+        }
+        res.max("max_bytecode_len", first["bytecode_len"].as_u64().unwrap_or(0));
+        if res.samples.len() < 2 {
+            res.sample(json!({"package": name, "profile": profile.name(), "conditions": ok.iter().map(|(c, _)| c.clone()).collect::<Vec<_>>(), "hashes": first}));
+        }
+    }
+}
+
+fn shard(ctx: &ShardCtx) -> ShardResult {
+    let mut res = ShardResult::default();
+    let builds = ctx.tier.pick(3, 5);
+    let root = match e2e::prepare("C15") {
+        Ok(r) => r,
+        Err(e) => {
+            res.harness_fault = Some(format!("e2e corpus copy failed: {e}"));
+            return res;
+        }
+    };
+    let all = e2e::list_run_tests(&root);
+    let mine = e2e::slice_for(&all, ctx.seed, ctx.shard, ctx.nshards);
+    let mut i = 0u64;
+    let mut e2e_iter = mine.into_iter();
+    while ctx.time_left() {
+        // alternate generated programs and corpus packages
+        if i % 2 == 0 {
+            let mut scratch = ShardResult::default();
+            let case = case_at(ctx.seed ^ 0x0c15, ctx.shard, i / 2, 1, &mut scratch);
+            let dir = ctx.work().join(format!("gen{i}"));
+            if write_pkg(&dir, "gencase", &case.src, true).is_ok() {
+                res.count("generated_packages");
+                check_pkg(ctx, &format!("generated:{:016x}", hash64(case.src.as_bytes())), &dir, &mut res, builds);
+            }
+            let _ = std::fs::remove_dir_all(&dir);
+        } else if let Some(t) = e2e_iter.next() {
+            res.count("e2e_packages");
+            check_pkg(ctx, &t.name, &t.dir, &mut res, builds);
+        }
+        i += 1;
+    }
+    res
+}
+
+fn replay(v: &Value) -> ShardResult {
+    let mut res = ShardResult::default();
+    let ctx = ShardCtx { prop: "C15".into(), tier: Tier::Quick, seed: 0, shard: 99, nshards: 1, start: std::time::Instant::now(), budget: std::time::Duration::from_secs(600), first_index: 0 };
+    let name = v["package"].as_str().unwrap_or("").to_string();
+    if name.starts_with("generated:") {
+        res.harness_fault = Some("generated packages are removed after the run; re-run the check with the same seed".into());
+        return res;
+    }
+    match e2e::prepare("C15") {
+        Ok(root) => {
+            let dir = root.join("test_programs").join(&name);
+            check_pkg(&ctx, &name, &dir, &mut res, 5);
+        }
+        Err(e) => res.harness_fault = Some(e),
+    }
+    res
+}
